@@ -30,7 +30,8 @@ OUTSIDE = ['more than three packages; custom load paths (C12 covers the '
 
 GL = b'function _update()\n f()\nend\n'
 PRE = (b'function f() end\nfunction _drawx() end\nfunction _update6() '
-       b'end\nlocal function _init() end\n')
+       b'end\nlocal function _init() end\nfunction _draw.h() end\n'
+       b'function _init:m() end\n')
 POST = b'g=2'
 
 
